@@ -473,6 +473,13 @@ End LayoutNodes.
 Definition link_hits (x : item) (k : key) : bool := match x with ILink _ k' => key_eqb k' k | IAttr _ _ => false end.
 Definition attr_hits (x : item) (k : key) : bool := match x with IAttr _ k' => key_eqb k' k | ILink _ _ => false end.
 
+Lemma del_links x n : n_links (del_in_node x n) = match x with ILink _ k => remove_key k (n_links n) | IAttr _ _ => n_links n end.
+Proof. destruct x; reflexivity. Qed.
+Lemma del_attrs x n : n_attrs (del_in_node x n) = match x with IAttr _ k => remove_key k (n_attrs n) | ILink _ _ => n_attrs n end.
+Proof. destruct x; reflexivity. Qed.
+Lemma del_data x n : n_data (del_in_node x n) = n_data n.
+Proof. destruct x; reflexivity. Qed.
+
 Section Del.
   Variable s : fspec.
   Variable x : item.
@@ -483,12 +490,6 @@ Section Del.
 
   Let a := item_addr x.
 
-  Lemma del_links n : n_links (del_in_node x n) = match x with ILink _ k => remove_key k (n_links n) | IAttr _ _ => n_links n end.
-  Proof. destruct x; reflexivity. Qed.
-  Lemma del_attrs n : n_attrs (del_in_node x n) = match x with IAttr _ k => remove_key k (n_attrs n) | ILink _ _ => n_attrs n end.
-  Proof. destruct x; reflexivity. Qed.
-  Lemma del_data n : n_data (del_in_node x n) = n_data n.
-  Proof. destruct x; reflexivity. Qed.
 
   Lemma D_data b : option_map n_data (node_at f' b) = option_map n_data (layout_at s b).
   Proof. rewrite Hnode. destruct (addr_eqb (item_addr x) b); [|reflexivity]. destruct (layout_at s b); simpl; [rewrite del_data|]; reflexivity. Qed.
@@ -851,7 +852,7 @@ Section DelList.
       destruct ck; simpl; rewrite Hex; reflexivity. }
     rewrite Hnode. fold a. rewrite Hlay. unfold entry_removed.
     destruct (addr_eqb a (ea ++ [flat_key ck])) eqn:Ea; simpl.
-    - rewrite (del_data s x f'). simpl n_data. cbv iota. rewrite (del_links s x f'). destruct x as [a0 k0|a0 k0]; cbn [link_hits n_links group_node andb negb].
+    - rewrite del_data. simpl n_data. cbv iota. rewrite del_links. destruct x as [a0 k0|a0 k0]; cbn [link_hits n_links group_node andb negb].
       + rewrite ku_entries_all, filter_true. reflexivity.
       + rewrite flat_map_remove_key. apply ku_entries_del.
     - cbn [andb negb n_data n_links group_node]. rewrite ku_entries_all, filter_true. reflexivity.
@@ -869,45 +870,603 @@ Section DelList.
     { unfold ea. rewrite L_under. unfold k, u. rewrite (find_ent_in s Hwf t Hin). unfold under_entity.
       rewrite (nodup_keys_lookup _ _ _ Hnd Hd). reflexivity. }
     rewrite Hlay in Hdat. simpl in Hdat.
-    destruct (node_at f' (ea ++ [KDatas])) as [n|]; [|reflexivity]. simpl in Hdat. inversion Hdat as [E]. rewrite E. reflexivity.
+    destruct (node_at f' [flat_key k; KU u; KDatas]) as [n|]; [|reflexivity]. simpl in Hdat. inversion Hdat as [E]. rewrite E. reflexivity.
   Qed.
 
   Lemma P_list2 :
     fetch_children G0 f' (U u) k = Ok (filter keep_of (map key_of (et_kids t))).
   Proof.
-    rewrite (P_list s Hwf x f' Htop Hnode t Hin). fold a k u ea.
+    unfold u, k. rewrite (P_list s Hwf x f' Htop Hnode t Hin). fold k. fold u. fold ea. fold a.
     destruct (ent_ok_parts s Hwf t Hin) as [_ [Hkids _]]. rewrite <- Hkids.
     destruct (addr_eqb a [] && link_hits x (flat_key k)) eqn:E1.
-    { simpl. symmetry. apply filter_false. intros e _. unfold keep_of. rewrite E1. reflexivity. }
+    { simpl. f_equal. symmetry. apply filter_false. intros e _. unfold keep_of. fold a k u. rewrite E1. reflexivity. }
     destruct (addr_eqb a [flat_key k] && link_hits x (KU u)) eqn:E2.
-    { simpl. symmetry. apply filter_false. intros e _. unfold keep_of. rewrite E1, E2. reflexivity. }
+    { simpl. f_equal. symmetry. apply filter_false. intros e _. unfold keep_of. fold a k u. rewrite E1, E2. reflexivity. }
     simpl. f_equal.
     (* the links of the entity node, with the deleted one mapped to [] *)
     assert (Hl : flat_map (kids_of_container f') (n_links (if addr_eqb a ea then del_in_node x (ent_node t) else ent_node t)) =
                  flat_map (fun e => if addr_eqb a ea && link_hits x (fst e) then [] else kids_of_container f' e) (n_links (ent_node t))).
-    { destruct (addr_eqb a ea); simpl.
-      - rewrite (del_links s x f'). destruct x as [a0 k0|a0 k0]; simpl; [reflexivity|]. apply flat_map_remove_key.
+    { destruct (addr_eqb a ea).
+      - rewrite del_links. destruct x as [a0 k0|a0 k0]; [reflexivity|]. rewrite flat_map_remove_key. reflexivity.
       - reflexivity. }
     rewrite Hl. unfold ent_node. simpl n_links. fold k u ea. simpl flat_map.
     assert (Hty : (if addr_eqb a ea && link_hits x KType then [] else kids_of_container f' (KType, type_addr k (et_ty t))) = []).
     { destruct (addr_eqb a ea && link_hits x KType); reflexivity. }
     rewrite Hty. simpl. rewrite !flat_map_app.
     assert (Hpg : flat_map (fun e : key * addr => if addr_eqb a ea && link_hits x (fst e) then [] else kids_of_container f' e)
-                    (match et_pgs t with Some _ => [(KPGs, ea ++ [KPGs])] | None => [] end) = []).
+                    (match et_pgs t with Some _ => [(KPGs, [flat_key k; KU u; KPGs])] | None => [] end) = []).
     { destruct (et_pgs t); simpl; [|reflexivity]. destruct (addr_eqb a ea && link_hits x KPGs); reflexivity. }
-    rewrite Hpg. simpl.
     assert (Hds : flat_map (fun e : key * addr => if addr_eqb a ea && link_hits x (fst e) then [] else kids_of_container f' e)
-                    (map (fun d : key * N => (fst d, ea ++ [fst d])) (et_dsets t)) = []).
+                    (map (fun d : key * N => (fst d, [flat_key k; KU u; fst d])) (et_dsets t)) = []).
     { rewrite flat_map_concat_map, map_map, <- flat_map_concat_map. apply flat_map_nil. intros d Hd. simpl.
-      destruct (addr_eqb a ea && link_hits x (fst d)); [reflexivity|]. apply dset_link_no_kids. exact Hd. }
-    rewrite Hds, app_nil_r.
+      destruct (addr_eqb a ea && link_hits x (fst d)); [reflexivity|]. apply (dset_link_no_kids d Hd). }
+    match goal with |- ?P ++ ?C ++ ?D = _ => transitivity ([] ++ C ++ []); [f_equal; [exact Hpg | f_equal; exact Hds]|] end.
+    rewrite app_nil_r. cbn [app].
     unfold child_keys. rewrite filter_flat_map. rewrite flat_map_concat_map, map_map, <- flat_map_concat_map.
     apply flat_map_ext_in. intros ck Hck. simpl fst.
     rewrite filter_map_comm.
     destruct (addr_eqb a ea && link_hits x (flat_key ck)) eqn:Ec.
     - symmetry. rewrite filter_false; [reflexivity|]. intros c _. unfold keep_of, cont_removed. simpl. fold a k u ea. rewrite Ec.
       rewrite !andb_false_r. reflexivity.
-    - rewrite (cont_node ck Hck). f_equal. apply filter_ext. intros c. unfold keep_of, cont_removed. simpl. fold a k u ea.
+    - pose proof (cont_node ck Hck) as Hc. unfold ea in Hc. cbn [app ent_addr] in Hc. rewrite Hc. f_equal. apply filter_ext. intros c. unfold keep_of, cont_removed. simpl. fold a k u ea.
       rewrite E1, E2, Ec. reflexivity.
   Qed.
 End DelList.
+
+Lemma opt_pair_data (o : option node) (A0 : addr) :
+  option_map (fun p : addr * node => n_data (snd p)) (match o with Some n => Some (A0, n) | None => None end) = option_map n_data o.
+Proof. destruct o; reflexivity. Qed.
+
+(* ------------------------------------------------------------------ the view of one entity when the deletion does not touch it *)
+Section DelView.
+  Variable s : fspec.
+  Hypothesis Hwf : wf s.
+  Variable x : item.
+  Variable f' : h5.
+  Hypothesis Htop : top f' = [].
+  Hypothesis Hnode : forall b, node_at f' b =
+     if addr_eqb (item_addr x) b then option_map (del_in_node x) (layout_at s b) else layout_at s b.
+  Variable t : etree.
+  Hypothesis Hin : In t (subtrees (fs_root s)).
+
+  Let a := item_addr x.
+  Let k := et_kind t.
+  Let u := et_uid t.
+  Let ty := et_ty t.
+  Let ea := ent_addr k u.
+  Let ta := type_addr k ty.
+  Let en' := if addr_eqb a ea then del_in_node x (ent_node t) else ent_node t.
+
+  (* the entity node is untouched, or only loses a child container *)
+  Definition ea_clean : Prop :=
+    addr_eqb a ea = false \/ (exists a0 ck, x = ILink a0 (flat_key ck) /\ lookup (flat_key ck) (et_dsets t) = None).
+
+  Lemma type_spec : exists ts, lookupN ty (fs_types s k) = Some ts.
+  Proof.
+    destruct (ent_ok_parts s Hwf t Hin) as [_ [_ [_ [_ [_ [_ [_ Hty]]]]]]]. unfold type_ok in Hty. fold ty k in Hty.
+    destruct (lookupN ty (fs_types s k)) as [ts|]; [exists ts; reflexivity | discriminate].
+  Qed.
+
+  Lemma en_attrs : ea_clean -> n_attrs en' = et_attrs t.
+  Proof.
+    intros [E|[a0 [ck [E _]]]]; unfold en'.
+    - rewrite E. reflexivity.
+    - destruct (addr_eqb a ea); [|reflexivity]. rewrite del_attrs, E. reflexivity.
+  Qed.
+
+  Lemma ea_clean_link kk : ea_clean -> (forall ck, kk <> flat_key ck) -> addr_eqb a ea && link_hits x kk = false.
+  Proof.
+    intros [E|[a0 [ck [E _]]]] Hkk.
+    - rewrite E. reflexivity.
+    - rewrite E. simpl. destruct (key_eqb (flat_key ck) kk) eqn:Ek; [|apply andb_false_r].
+      apply key_eqb_eq in Ek. exfalso. apply (Hkk ck). symmetry. exact Ek.
+  Qed.
+
+  Lemma ent_layout : layout_at s ea = Some (ent_node t).
+  Proof. unfold ea. rewrite L_ent. unfold k, u. rewrite (find_ent_in s Hwf t Hin). reflexivity. Qed.
+
+  Lemma sub_type ts : lookupN ty (fs_types s k) = Some ts -> addr_eqb a ea && link_hits x KType = false -> addr_eqb a ta = false ->
+    sub f' ea KType = Some (ta, type_node k ty ts).
+  Proof.
+    intros Ets E1 E2. unfold sub. rewrite (D_getlink s x f' Hnode), ent_layout. fold a. rewrite E1.
+    unfold ent_node. cbn [n_links lookup key_eqb]. fold k ty ta.
+    rewrite (D_node_other s x f' Hnode ta E2). unfold ta. rewrite L_type, Ets. reflexivity.
+  Qed.
+
+  Lemma type_layout ts : lookupN ty (fs_types s k) = Some ts -> layout_at s ta = Some (type_node k ty ts).
+  Proof. intros E. unfold ta. rewrite L_type, E. reflexivity. Qed.
+
+  Lemma sub_cmap ts : lookupN ty (fs_types s k) = Some ts -> addr_eqb a ta = false -> addr_eqb a (ta ++ [KCmap]) = false ->
+    option_map (fun p : addr * node => (n_attrs (snd p), n_data (snd p))) (sub f' ta KCmap)
+    = option_map (fun c : amap * N => (fst c, Some (snd c))) (ts_cmap ts).
+  Proof.
+    intros Ets E1 E2. unfold sub. rewrite (D_getlink s x f' Hnode), (type_layout ts Ets). fold a. rewrite E1. cbn [andb].
+    unfold type_node. cbn [n_links]. fold ta.
+    destruct (ts_cmap ts) as [[ca tok]|] eqn:Ec; cbn [app lookup key_eqb].
+    - rewrite (D_node_other s x f' Hnode _ E2). unfold ta, type_addr. cbn [app layout_at]. rewrite Ets, Ec. reflexivity.
+    - destruct (ts_vmap ts); reflexivity.
+  Qed.
+
+  Lemma sub_vmap ts : lookupN ty (fs_types s k) = Some ts -> addr_eqb a ta = false ->
+    option_map (fun p : addr * node => n_data (snd p)) (sub f' ta KVmap) = option_map (fun v : N => Some v) (ts_vmap ts).
+  Proof.
+    intros Ets E1. unfold sub. rewrite (D_getlink s x f' Hnode), (type_layout ts Ets). fold a. rewrite E1. cbn [andb].
+    unfold type_node. cbn [n_links]. fold ta.
+    destruct (ts_vmap ts) as [tok|] eqn:Ev.
+    - pose proof (D_data s x f' Hnode [KTypes; KTF k; KU ty; KVmap]) as Hd.
+      assert (Hlay : layout_at s [KTypes; KTF k; KU ty; KVmap] = Some (dset_node [] tok)).
+      { cbn [layout_at]. rewrite Ets, Ev. reflexivity. }
+      rewrite Hlay in Hd.
+      destruct (ts_cmap ts); unfold type_addr; cbn [app lookup key_eqb ekind_eqb]; rewrite opt_pair_data; exact Hd.
+    - destruct (ts_cmap ts); reflexivity.
+  Qed.
+End DelView.
+
+Lemma lookup_app {V} kk (l1 l2 : list (key * V)) :
+  lookup kk (l1 ++ l2) = match lookup kk l1 with Some v => Some v | None => lookup kk l2 end.
+Proof. induction l1 as [|[k1 v1] r IH]; simpl; [reflexivity|]. destruct (key_eqb kk k1); [reflexivity | exact IH]. Qed.
+Lemma lookup_conts_none kk (g : ekind -> addr) (l : list ekind) : (forall ck, kk <> flat_key ck) -> lookup kk (map (fun ck => (flat_key ck, g ck)) l) = None.
+Proof.
+  intros H. induction l as [|c r IH]; simpl; [reflexivity|]. destruct (key_eqb kk (flat_key c)) eqn:E; [|exact IH].
+  apply key_eqb_eq in E. exfalso. apply (H c). exact E.
+Qed.
+Lemma lookup_dsets_map kk (b : addr) (l : list (key * N)) :
+  lookup kk (map (fun d : key * N => (fst d, b ++ [fst d])) l) = option_map (fun _ => b ++ [kk]) (lookup kk l).
+Proof.
+  induction l as [|[k1 v1] r IH]; simpl; [reflexivity|]. destruct (key_eqb kk k1) eqn:E; [|exact IH].
+  apply key_eqb_eq in E. subst. reflexivity.
+Qed.
+Lemma dsets_of_alt f n :
+  dsets_of f n = flat_map (fun l : key * addr => match option_map n_data (node_at f (snd l)) with Some (Some t) => [(fst l, t)] | _ => [] end) (n_links n).
+Proof. unfold dsets_of. apply flat_map_ext_in. intros e _. destruct (node_at f (snd e)) as [m|]; simpl; [destruct (n_data m)|]; reflexivity. Qed.
+
+Section DelView2.
+  Variable s : fspec.
+  Hypothesis Hwf : wf s.
+  Variable x : item.
+  Variable f' : h5.
+  Hypothesis Htop : top f' = [].
+  Hypothesis Hnode : forall b, node_at f' b =
+     if addr_eqb (item_addr x) b then option_map (del_in_node x) (layout_at s b) else layout_at s b.
+  Variable t : etree.
+  Hypothesis Hin : In t (subtrees (fs_root s)).
+
+  Let a := item_addr x.
+  Let k := et_kind t.
+  Let u := et_uid t.
+  Let ty := et_ty t.
+  Let ea := ent_addr k u.
+  Let ta := type_addr k ty.
+  Let en' := if addr_eqb a ea then del_in_node x (ent_node t) else ent_node t.
+  Let clean := ea_clean x t.
+
+  Hypothesis Htopk : addr_eqb a [] && link_hits x (flat_key k) = false.
+  Hypothesis Hflat : addr_eqb a [flat_key k] && link_hits x (KU u) = false.
+
+  Lemma walk_to_ent : match sub f' (top f') (flat_key k) with
+                      | Some (ca, _) => sub_uid f' ca (U u)
+                      | None => None
+                      end = Some (ea, en').
+  Proof.
+    rewrite Htop. unfold k. rewrite (P_top s x f' Hnode t). fold k a. rewrite Htopk.
+    destruct (P_flat_node s x f' Hnode t) as [n1 E]. fold k in E. rewrite E. cbn [option_map].
+    unfold k, u. rewrite (P_ent s Hwf x f' Hnode t Hin). fold k u a. rewrite Hflat. reflexivity.
+  Qed.
+
+  Lemma links_en' {X} (g : key * addr -> list X) :
+    flat_map g (n_links en') = flat_map (fun e => if addr_eqb a ea && link_hits x (fst e) then [] else g e) (n_links (ent_node t)).
+  Proof.
+    unfold en'. destruct (addr_eqb a ea).
+    - rewrite del_links. destruct x as [a0 k0|a0 k0]; [reflexivity|]. rewrite flat_map_remove_key. reflexivity.
+    - reflexivity.
+  Qed.
+
+  Lemma dsets_same : clean -> fetch_dsets G0 f' k (U u) = Some (et_dsets t).
+  Proof.
+    intros Hc. unfold fetch_dsets.
+    assert (Hg : absorbs (lazy_guard G0 k) = true) by (destruct k; reflexivity).
+    rewrite (glookup_ok_absorb _ _ Hg). rewrite walk_to_ent. f_equal.
+    rewrite dsets_of_alt, links_en'.
+    unfold ent_node. cbn [n_links]. fold k u ea. cbn [flat_map fst snd].
+    set (g := fun e : key * addr =>
+                if addr_eqb a ea && link_hits x (fst e) then []
+                else match option_map n_data (node_at f' (snd e)) with Some (Some t0) => [(fst e, t0)] | _ => [] end).
+    destruct (type_spec s Hwf t Hin) as [ts Ets].
+    assert (Hty : (if addr_eqb a ea && link_hits x KType then []
+                   else match option_map n_data (node_at f' (type_addr k (et_ty t))) with Some (Some t0) => [(KType, t0)] | _ => [] end) = []).
+    { destruct (addr_eqb a ea && link_hits x KType); [reflexivity|].
+      rewrite (D_data s x f' Hnode). rewrite (L_type s k (et_ty t)). unfold k. rewrite Ets. reflexivity. }
+    rewrite Hty. cbn [app]. rewrite !flat_map_app.
+    assert (Hpg : flat_map g (match et_pgs t with Some _ => [(KPGs, ea ++ [KPGs])] | None => [] end) = []).
+    { destruct (et_pgs t) as [pgs|] eqn:Ep; [|reflexivity]. cbn [flat_map]. unfold g. cbn [fst snd].
+      destruct (addr_eqb a ea && link_hits x KPGs); [reflexivity|].
+      rewrite (D_data s x f' Hnode). unfold ea. rewrite L_under. unfold k, u. rewrite (find_ent_in s Hwf t Hin).
+      unfold under_entity. rewrite (dsets_no_special s Hwf t Hin KPGs) by auto. rewrite Ep. reflexivity. }
+    assert (Hct : flat_map g (map (fun ck => (flat_key ck, ea ++ [flat_key ck])) (et_conts t)) = []).
+    { rewrite flat_map_concat_map, map_map, <- flat_map_concat_map. apply flat_map_nil. intros ck Hck. unfold g. cbn [fst snd].
+      destruct (addr_eqb a ea && link_hits x (flat_key ck)); [reflexivity|].
+      assert (Hk : k <> KData).
+      { intros E. destruct (ent_ok_parts s Hwf t Hin) as [_ [_ [Hd _]]]. destruct (Hd E) as [_ Hc0]. rewrite Hc0 in Hck. contradiction. }
+      rewrite (D_data s x f' Hnode). unfold ea. rewrite L_under. unfold k, u. rewrite (find_ent_in s Hwf t Hin).
+      unfold under_entity. rewrite (dsets_no_flat s Hwf t Hin ck Hk).
+      assert (Hex : existsb (ekind_eqb ck) (et_conts t) = true).
+      { apply existsb_exists. exists ck. split; [exact Hck | apply ekind_eqb_refl]. }
+      destruct ck; cbn; rewrite Hex; reflexivity. }
+    assert (Hds : flat_map g (map (fun d : key * N => (fst d, ea ++ [fst d])) (et_dsets t)) = et_dsets t).
+    { rewrite flat_map_concat_map, map_map, <- flat_map_concat_map. apply flat_map_single. intros d Hd. unfold g. cbn [fst snd].
+      destruct (ent_ok_parts s Hwf t Hin) as [_ [_ [_ [_ [Hdk [Hnd _]]]]]].
+      assert (Hnh : addr_eqb a ea && link_hits x (fst d) = false).
+      { destruct Hc as [E|[a0 [ck [E Hno]]]]; [fold a k u ea in E; rewrite E; reflexivity|].
+        rewrite E. cbn [link_hits]. destruct (key_eqb (flat_key ck) (fst d)) eqn:Ek; [|apply andb_false_r].
+        apply key_eqb_eq in Ek. destruct d as [kk tok]. cbn [fst] in Ek. subst kk.
+        rewrite (nodup_keys_lookup _ _ _ Hnd Hd) in Hno. discriminate. }
+      rewrite Hnh. rewrite (D_data s x f' Hnode). unfold ea. rewrite L_under. unfold k, u. rewrite (find_ent_in s Hwf t Hin).
+      unfold under_entity. destruct d as [kk tok]. cbn [fst]. rewrite (nodup_keys_lookup _ _ _ Hnd Hd). reflexivity. }
+    match goal with |- ?P ++ ?C ++ ?D = _ => transitivity ([] ++ [] ++ et_dsets t); [f_equal; [exact Hpg | f_equal; [exact Hct | exact Hds]]|] end.
+    reflexivity.
+  Qed.
+End DelView2.
+
+Section DelView3.
+  Variable s : fspec.
+  Hypothesis Hwf : wf s.
+  Variable x : item.
+  Variable f' : h5.
+  Hypothesis Htop : top f' = [].
+  Hypothesis Hnode : forall b, node_at f' b =
+     if addr_eqb (item_addr x) b then option_map (del_in_node x) (layout_at s b) else layout_at s b.
+  Variable t : etree.
+  Hypothesis Hin : In t (subtrees (fs_root s)).
+
+  Local Notation a := (item_addr x).
+  Local Notation k := (et_kind t).
+  Local Notation u := (et_uid t).
+  Local Notation ty := (et_ty t).
+  Local Notation ea := (ent_addr (et_kind t) (et_uid t)).
+  Local Notation ta := (type_addr (et_kind t) (et_ty t)).
+  Local Notation en' := (if addr_eqb (item_addr x) (ent_addr (et_kind t) (et_uid t)) then del_in_node x (ent_node t) else ent_node t).
+
+  Hypothesis Htopk : addr_eqb a [] && link_hits x (flat_key k) = false.
+  Hypothesis Hflat : addr_eqb a [flat_key k] && link_hits x (KU u) = false.
+  Hypothesis Hclean : ea_clean x t.
+  Hypothesis Hta : addr_eqb a ta = false.
+  Hypothesis Hcm : addr_eqb a (ta ++ [KCmap]) = false.
+  Hypothesis Hpgc : addr_eqb a (ea ++ [KPGs]) = false.
+  Hypothesis Hpgn : forall pk, addr_eqb a (ea ++ [KPGs; pk]) = false.
+
+  Lemma getlink_pgs :
+    get_link f' ea KPGs = match et_pgs t with Some _ => Some (ea ++ [KPGs]) | None => None end.
+  Proof.
+    rewrite (D_getlink s x f' Hnode). rewrite (ent_layout s Hwf t Hin).
+    assert (E : addr_eqb a ea && link_hits x KPGs = false).
+    { apply (ea_clean_link x t KPGs Hclean). intros ck. destruct ck; discriminate. }
+    rewrite E. unfold ent_node. cbn [n_links lookup key_eqb]. rewrite lookup_app.
+    destruct (et_pgs t); cbn [lookup key_eqb]; [reflexivity|].
+    rewrite lookup_app, lookup_conts_none by (intros ck; destruct ck; discriminate).
+    rewrite lookup_dsets_map, (dsets_no_special s Hwf t Hin KPGs) by auto. reflexivity.
+  Qed.
+
+  Lemma pgs_same :
+    match get_link f' ea KPGs with
+    | Some _ => match (match sub f' (top f') KObjects with
+                       | Some (oa, _) => match sub_uid f' oa (U u) with Some (ea', _) => sub f' ea' KPGs | None => None end
+                       | None => None
+                       end) with
+                | Some (pa, pn) => pg_list f' pa pn
+                | None => []
+                end
+    | None => []
+    end = match k, et_pgs t with KObject, Some p => p | _, _ => [] end.
+  Proof.
+    rewrite getlink_pgs. destruct (et_pgs t) as [pgs|] eqn:Ep; [|destruct k; reflexivity].
+    assert (Ek : k = KObject).
+    { destruct (ent_ok_parts s Hwf t Hin) as [_ [_ [_ [Hp _]]]]. destruct k; try reflexivity;
+        (rewrite Hp in Ep by discriminate; discriminate). }
+    pose proof (walk_to_ent s Hwf x f' Htop Hnode t Hin Htopk Hflat) as Hw. rewrite Ek in Hw. cbn [flat_key] in Hw.
+    destruct (sub f' (top f') KObjects) as [[oa on]|]; [|discriminate]. rewrite Ek. rewrite Hw. rewrite <- Ek.
+    unfold sub. rewrite getlink_pgs, Ep. rewrite (D_node_other s x f' Hnode _ Hpgc).
+    rewrite L_under. rewrite (find_ent_in s Hwf t Hin). unfold under_entity.
+    rewrite (dsets_no_special s Hwf t Hin KPGs) by auto. rewrite Ep.
+    unfold pg_list, group_node. cbn [n_links]. rewrite flat_map_concat_map, map_map, <- flat_map_concat_map.
+    apply flat_map_single. intros [pk pa] Hp. cbn [fst snd].
+    rewrite (D_node_other s x f' Hnode _ (Hpgn pk)). rewrite L_pg. rewrite (find_ent_in s Hwf t Hin), Ep.
+    destruct (ent_ok_parts s Hwf t Hin) as [_ [_ [_ [_ [_ [_ [Hnd _]]]]]]].
+    rewrite (nodup_keys_lookup _ _ _ (Hnd pgs Ep) Hp). reflexivity.
+  Qed.
+
+  Lemma view_same p : load_entity G0 f' (U u) (Some k) p = Ok (Some (rec_of s false t p)).
+  Proof.
+    rewrite (P_view s Hwf x f' Htop Hnode t Hin). rewrite Htopk, Hflat.
+    unfold fa_tail. rewrite pgs_same.
+    destruct (type_spec s Hwf t Hin) as [ts Ets].
+    assert (E1 : addr_eqb a ea && link_hits x KType = false).
+    { apply (ea_clean_link x t KType Hclean). intros ck. destruct ck; discriminate. }
+    rewrite (sub_type s Hwf x f' Hnode t Hin ts Ets E1 Hta). cbn [type_node n_attrs].
+    rewrite (sub_cmap s x f' Hnode t ts Ets Hta Hcm), (sub_vmap s x f' Hnode t ts Ets Hta).
+    rewrite (en_attrs x t Hclean).
+    destruct (ent_ok_parts s Hwf t Hin) as [Hid [_ [_ [_ [_ [_ [_ Hty]]]]]]].
+    unfold create_entity. unfold uid_of_attrs. rewrite Hid.
+    unfold rec_of. rewrite Ets. cbn [option_map]. unfold tview_of.
+    unfold type_ok in Hty. rewrite Ets in Hty.
+    unfold type_id. cbn [tv_attrs].
+    pose proof (dsets_same s Hwf x f' Htop Hnode t Hin Htopk Hflat Hclean) as Hds.
+    destruct k eqn:Ek; cbn [rkind_of ekind_of] in *.
+    - unfold has_key in Hty. destruct (lookup KID (ts_attrs ts)); [|discriminate]. rewrite Hds. reflexivity.
+    - destruct (lookup KID (ts_attrs ts)) as [[n|c|n]|]; try discriminate.
+      destruct (class_name_first c object_classes) as [b|]; [|discriminate]. rewrite Hty. rewrite Hds. reflexivity.
+    - rewrite Hty. rewrite Hds. reflexivity.
+  Qed.
+End DelView3.
+
+(* ------------------------------------------------------------------ what an item describes, seen from one entity *)
+Section Described.
+  Variable s : fspec.
+  Hypothesis Hwf : wf s.
+  Variable t : etree.
+  Hypothesis Hin : In t (subtrees (fs_root s)).
+
+  Local Notation k := (et_kind t).
+  Local Notation u := (et_uid t).
+  Local Notation ea := (ent_addr (et_kind t) (et_uid t)).
+  Local Notation ta := (type_addr (et_kind t) (et_ty t)).
+
+  Lemma self_uid : In u (uids t).
+  Proof. rewrite uids_unfold. left. reflexivity. Qed.
+  Lemma uid_in_root : In u (uids (fs_root s)).
+  Proof. unfold uids. apply in_map. exact Hin. Qed.
+  Lemma uids_in_root : incl (uids t) (uids (fs_root s)).
+  Proof. intros v Hv. unfold uids in *. apply in_map_iff in Hv. destruct Hv as [c [E Hc]]. subst. apply in_map. eapply subtrees_trans'; eassumption. Qed.
+
+  Lemma db_top : In u (described_by s (ILink [] (flat_key k))).
+  Proof.
+    unfold described_by. cbn [item_addr].
+    assert (Hs : In u (of_kind_subtrees s k)).
+    { unfold of_kind_subtrees. apply in_flat_map. exists t. split; [|exact self_uid]. apply filter_In. split; [exact Hin | apply ekind_eqb_refl]. }
+    destruct k; cbn [flat_key kind_of_flat]; [exact uid_in_root | exact Hs | exact Hs].
+  Qed.
+  Lemma db_flat : described_by s (ILink [flat_key k] (KU u)) = uids t.
+  Proof.
+    pose proof (find_ent_in s Hwf t Hin) as Hf. unfold described_by. cbn [item_addr].
+    destruct k eqn:Ek; cbn [flat_key kind_of_flat]; rewrite Hf; reflexivity.
+  Qed.
+  Lemma ent_at_self : ent_at s (flat_key k) u = Some t.
+  Proof. pose proof (find_ent_in s Hwf t Hin) as Hf. unfold ent_at. destruct k eqn:Ek; cbn [flat_key kind_of_flat]; exact Hf. Qed.
+
+  Lemma db_ea_shape x : item_addr x = ea ->
+    described_by s x =
+    match x with
+    | IAttr _ KID => uids t
+    | IAttr _ _ => [u]
+    | ILink _ KType => uids t
+    | ILink _ lk => match kind_of_flat lk, lookup lk (et_dsets t) with
+                    | Some ck, None => flat_map uids (kids_of_kind t ck)
+                    | _, _ => [u]
+                    end
+    end.
+  Proof.
+    intros E. unfold described_by. rewrite E. pose proof ent_at_self as He.
+    unfold ent_addr. destruct k eqn:Ek; cbn [flat_key] in *; rewrite He; reflexivity.
+  Qed.
+  Lemma db_ea_attr a0 k0 : a0 = ea -> In u (described_by s (IAttr a0 k0)).
+  Proof. intros E. rewrite (db_ea_shape (IAttr a0 k0) E). destruct k0; try (left; reflexivity). exact self_uid. Qed.
+  Lemma db_ea_id a0 : a0 = ea -> described_by s (IAttr a0 KID) = uids t.
+  Proof. intros E. rewrite (db_ea_shape (IAttr a0 KID) E). reflexivity. Qed.
+
+  Lemma db_type x : item_addr x = ta -> In u (described_by s x).
+  Proof.
+    intros E. unfold described_by. rewrite E. unfold type_addr. cbn.
+    unfold users. apply in_map_iff. exists t. split; [reflexivity|]. apply filter_In. split; [exact Hin|].
+    rewrite ekind_eqb_refl, N.eqb_refl. reflexivity.
+  Qed.
+  Lemma db_cmap x : item_addr x = ta ++ [KCmap] -> In u (described_by s x).
+  Proof.
+    intros E. unfold described_by. rewrite E. unfold type_addr. cbn.
+    unfold users. apply in_map_iff. exists t. split; [reflexivity|]. apply filter_In. split; [exact Hin|].
+    rewrite ekind_eqb_refl, N.eqb_refl. reflexivity.
+  Qed.
+  Lemma db_pgs x : item_addr x = ea ++ [KPGs] -> In u (described_by s x).
+  Proof.
+    intros E. unfold described_by. rewrite E. pose proof ent_at_self as He.
+    unfold ent_addr. destruct k eqn:Ek; cbn [flat_key app] in *; rewrite He; destruct x as [a0 k0|a0 [| | | | | | | | | | | | | |n|n0]]; cbn; left; reflexivity.
+  Qed.
+  Lemma db_pg x pk : item_addr x = ea ++ [KPGs; pk] -> In u (described_by s x).
+  Proof.
+    intros E. unfold described_by. rewrite E. pose proof ent_at_self as He.
+    unfold ent_addr. destruct k eqn:Ek; cbn [flat_key app] in *; rewrite He; left; reflexivity.
+  Qed.
+End Described.
+
+Lemma link_hits_true x kk : link_hits x kk = true -> exists a0, x = ILink a0 kk.
+Proof. destruct x as [a0 k0|a0 k0]; simpl; [discriminate|]. intros E. apply key_eqb_eq in E. subst. exists a0. reflexivity. Qed.
+Lemma kind_of_flat_some kk ck : kind_of_flat kk = Some ck -> kk = flat_key ck.
+Proof. destruct kk; simpl; intros E; inversion E; reflexivity. Qed.
+Lemma kind_of_flat_flat ck : kind_of_flat (flat_key ck) = Some ck.
+Proof. destruct ck; reflexivity. Qed.
+
+Section DescribedCont.
+  Variable s : fspec.
+  Hypothesis Hwf : wf s.
+  Variable t : etree.
+  Hypothesis Hin : In t (subtrees (fs_root s)).
+  Local Notation k := (et_kind t).
+  Local Notation u := (et_uid t).
+  Local Notation ea := (ent_addr (et_kind t) (et_uid t)).
+
+  Lemma db_cont_entry a0 ck v : a0 = ea ++ [flat_key ck] ->
+    described_by s (ILink a0 (KU v)) = flat_map uids (filter (fun c => N.eqb (et_uid c) v) (kids_of_kind t ck)).
+  Proof.
+    intros E. unfold described_by. cbn [item_addr]. rewrite E. pose proof (ent_at_self s Hwf t Hin) as He.
+    unfold ent_addr. destruct k eqn:Ek; cbn [flat_key app] in *; destruct ck; cbn [flat_key]; rewrite He; reflexivity.
+  Qed.
+
+  Lemma kid_in_kind c : In c (et_kids t) -> In c (kids_of_kind t (et_kind c)).
+  Proof. intros H. unfold kids_of_kind. apply filter_In. split; [exact H | apply ekind_eqb_refl]. Qed.
+  Lemma kid_subtree c : In c (et_kids t) -> In c (subtrees (fs_root s)).
+  Proof. intros H. apply (subtrees_trans' _ t c); [exact Hin|]. eapply subtrees_kids; [exact H | apply subtrees_self]. Qed.
+  Lemma kid_uids_incl c : In c (et_kids t) -> incl (uids c) (uids t).
+  Proof. intros H v Hv. eapply in_uids_kid; eassumption. Qed.
+  Lemma has_kid_not_data c : In c (et_kids t) -> k <> KData.
+  Proof. intros H E. destruct (ent_ok_parts s Hwf t Hin) as [_ [_ [Hd _]]]. destruct (Hd E) as [Hk _]. rewrite Hk in H. contradiction. Qed.
+End DescribedCont.
+
+(* ------------------------------------------------------------------ the hypotheses of the core induction, for one deletion *)
+Section DelLocal.
+  Variable s : fspec.
+  Hypothesis Hwf : wf s.
+  Variable x : item.
+  Variable f' : h5.
+  Hypothesis Htop : top f' = [].
+  Hypothesis Hnode : forall b, node_at f' b =
+     if addr_eqb (item_addr x) b then option_map (del_in_node x) (layout_at s b) else layout_at s b.
+  Variable t : etree.
+  Hypothesis Hin : In t (subtrees (fs_root s)).
+
+  Local Notation a := (item_addr x).
+  Local Notation k := (et_kind t).
+  Local Notation u := (et_uid t).
+  Local Notation ea := (ent_addr (et_kind t) (et_uid t)).
+  Local Notation ta := (type_addr (et_kind t) (et_ty t)).
+  Local Notation en' := (if addr_eqb (item_addr x) (ent_addr (et_kind t) (et_uid t)) then del_in_node x (ent_node t) else ent_node t).
+  Local Notation A := (described_by s x).
+
+  Lemma frame_top : ~ In u A -> addr_eqb a [] && link_hits x (flat_key k) = false.
+  Proof.
+    intros Hu. destruct (addr_eqb a [] && link_hits x (flat_key k)) eqn:E; [|reflexivity]. exfalso. apply Hu.
+    apply andb_true_iff in E. destruct E as [E1 E2]. apply addr_eqb_eq in E1. destruct (link_hits_true _ _ E2) as [a0 Ex].
+    subst x. cbn [item_addr] in E1. subst a0. apply (db_top s t Hin).
+  Qed.
+  Lemma frame_flat : ~ In u A -> addr_eqb a [flat_key k] && link_hits x (KU u) = false.
+  Proof.
+    intros Hu. destruct (addr_eqb a [flat_key k] && link_hits x (KU u)) eqn:E; [|reflexivity]. exfalso. apply Hu.
+    apply andb_true_iff in E. destruct E as [E1 E2]. apply addr_eqb_eq in E1. destruct (link_hits_true _ _ E2) as [a0 Ex].
+    subst x. cbn [item_addr] in E1. subst a0. rewrite (db_flat s Hwf t Hin). apply self_uid.
+  Qed.
+  Lemma frame_ea : ~ In u A -> ea_clean x t.
+  Proof.
+    intros Hu. unfold ea_clean. destruct (addr_eqb a ea) eqn:E; [|left; reflexivity]. right.
+    apply addr_eqb_eq in E. rewrite (db_ea_shape s Hwf t Hin x E) in Hu.
+    destruct x as [a0 k0|a0 k0].
+    - exfalso. apply Hu. destruct k0; try (left; reflexivity). apply self_uid.
+    - destruct (kind_of_flat k0) as [ck|] eqn:Ek.
+      + pose proof (kind_of_flat_some _ _ Ek) as E0. subst k0.
+        destruct (lookup (flat_key ck) (et_dsets t)) eqn:El.
+        * exfalso. apply Hu. destruct ck; cbn [flat_key kind_of_flat]; left; reflexivity.
+        * exists a0, ck. split; [reflexivity | exact El].
+      + exfalso. apply Hu. destruct k0; try discriminate; try (left; reflexivity). apply self_uid.
+  Qed.
+  Lemma frame_addr b : (forall y, item_addr y = b -> In u (described_by s y)) -> ~ In u A -> addr_eqb a b = false.
+  Proof.
+    intros H Hu. destruct (addr_eqb a b) eqn:E; [|reflexivity]. exfalso. apply Hu. apply H. apply addr_eqb_eq. exact E.
+  Qed.
+
+  Lemma local_unchanged p : ~ In u A -> load_entity G0 f' (U u) (Some k) p = Ok (Some (rec_of s false t p)).
+  Proof.
+    intros Hu. apply (view_same s Hwf x f' Htop Hnode t Hin).
+    - apply frame_top. exact Hu.
+    - apply frame_flat. exact Hu.
+    - apply frame_ea. exact Hu.
+    - apply frame_addr; [apply (db_type s t Hin) | exact Hu].
+    - apply frame_addr; [apply (db_cmap s t Hin) | exact Hu].
+    - apply frame_addr; [apply (db_pgs s Hwf t Hin) | exact Hu].
+    - intros pk. apply frame_addr; [intros y; apply (db_pg s Hwf t Hin) | exact Hu].
+  Qed.
+End DelLocal.
+
+Section DelLocal2.
+  Variable s : fspec.
+  Hypothesis Hwf : wf s.
+  Variable x : item.
+  Variable f' : h5.
+  Hypothesis Htop : top f' = [].
+  Hypothesis Hnode : forall b, node_at f' b =
+     if addr_eqb (item_addr x) b then option_map (del_in_node x) (layout_at s b) else layout_at s b.
+  Variable t : etree.
+  Hypothesis Hin : In t (subtrees (fs_root s)).
+
+  Local Notation a := (item_addr x).
+  Local Notation k := (et_kind t).
+  Local Notation u := (et_uid t).
+  Local Notation ea := (ent_addr (et_kind t) (et_uid t)).
+  Local Notation ta := (type_addr (et_kind t) (et_ty t)).
+  Local Notation en' := (if addr_eqb (item_addr x) (ent_addr (et_kind t) (et_uid t)) then del_in_node x (ent_node t) else ent_node t).
+  Local Notation A := (described_by s x).
+  Local Notation hit_top := (addr_eqb (item_addr x) [] && link_hits x (flat_key (et_kind t))).
+  Local Notation hit_flat := (addr_eqb (item_addr x) [flat_key (et_kind t)] && link_hits x (KU (et_uid t))).
+
+  Lemma uid_en' : uid_of_attrs ea (n_attrs en') = U u \/ (uid_of_attrs ea (n_attrs en') = Fresh ea /\ x = IAttr ea KID).
+  Proof.
+    destruct (ent_ok_parts s Hwf t Hin) as [Hid _]. unfold uid_of_attrs.
+    assert (Hn : n_attrs (ent_node t) = et_attrs t) by reflexivity.
+    destruct (addr_eqb a ea) eqn:E; [|rewrite Hn, Hid; left; reflexivity].
+    rewrite del_attrs, Hn. destruct x as [a0 k0|a0 k0]; [|rewrite Hid; left; reflexivity].
+    destruct (key_eqb k0 KID) eqn:Ek.
+    - apply key_eqb_eq in Ek. subst k0. rewrite lookup_remove_same. right. split; [reflexivity|].
+      apply addr_eqb_eq in E. cbn [item_addr] in E. subst a0. reflexivity.
+    - rewrite lookup_remove_other by (apply key_eqb_neq; exact Ek). rewrite Hid. left. reflexivity.
+  Qed.
+
+  Lemma view_some_uid p r : load_entity G0 f' (U u) (Some k) p = Ok (Some r) -> r_uid r = uid_of_attrs ea (n_attrs en').
+  Proof.
+    rewrite (P_view s Hwf x f' Htop Hnode t Hin). destruct hit_top; [discriminate|]. destruct hit_flat; [discriminate|].
+    unfold fa_tail. apply create_entity_uid.
+  Qed.
+
+  (* the Type link of the entity, whatever was deleted *)
+  Lemma type_id_cases ts : lookupN (et_ty t) (fs_types s k) = Some ts ->
+    match sub f' ea KType with
+    | None => True
+    | Some (_, tn') => lookup KID (n_attrs tn') = lookup KID (ts_attrs ts) \/ lookup KID (n_attrs tn') = None
+    end.
+  Proof.
+    intros Ets. unfold sub. rewrite (D_getlink s x f' Hnode), (ent_layout s Hwf t Hin).
+    destruct (addr_eqb a ea && link_hits x KType); [exact I|].
+    unfold ent_node. cbn [n_links lookup key_eqb]. rewrite Hnode, (type_layout s t ts Ets).
+    destruct (addr_eqb a ta); cbn [option_map].
+    - rewrite del_attrs. destruct x as [a0 k0|a0 k0]; [|left; reflexivity]. cbn [type_node n_attrs].
+      destruct (key_eqb k0 KID) eqn:Ek.
+      + apply key_eqb_eq in Ek. subst. right. apply lookup_remove_same.
+      + left. apply lookup_remove_other. apply key_eqb_neq. exact Ek.
+    - left. reflexivity.
+  Qed.
+
+  Lemma container_not_none p : k <> KData -> hit_top = false -> hit_flat = false -> load_entity G0 f' (U u) (Some k) p <> Ok None.
+  Proof.
+    intros Hk H1 H2. rewrite (P_view s Hwf x f' Htop Hnode t Hin), H1, H2. unfold fa_tail.
+    destruct (type_spec s Hwf t Hin) as [ts Ets]. pose proof (type_id_cases ts Ets) as Hc.
+    destruct (ent_ok_parts s Hwf t Hin) as [_ [_ [_ [_ [_ [_ [_ Hty]]]]]]]. unfold type_ok in Hty. rewrite Ets in Hty.
+    unfold create_entity, type_id.
+    destruct k eqn:Ek; [| |congruence]; cbn [rkind_of].
+    - destruct (sub f' ea KType) as [[ta' tn']|]; cbn [tv_attrs]; [|discriminate].
+      destruct (lookup KID (n_attrs tn')); discriminate.
+    - destruct (sub f' ea KType) as [[ta' tn']|]; cbn [tv_attrs]; [|discriminate].
+      destruct Hc as [Hc|Hc]; rewrite Hc; [|discriminate].
+      destruct (lookup KID (ts_attrs ts)) as [[n|c|n]|]; try discriminate.
+      destruct (class_name_first c object_classes) as [b|]; [|discriminate].
+      destruct (b || has_key KName (n_attrs en')); discriminate.
+  Qed.
+
+  Lemma local_ok_del : local_ok s f' A t.
+  Proof.
+    intros p. unfold view.
+    destruct (in_dec N.eq_dec u A) as [HinA|Hout]; [|left; apply (local_unchanged s Hwf x f' Htop Hnode t Hin p Hout)].
+    right. destruct (load_entity G0 f' (U u) (Some k) p) as [[r|]|e] eqn:Ev.
+    - (* made *)
+      right. right. pose proof (view_some_uid p r Ev) as Hr.
+      destruct uid_en' as [Hu|[Hu Hx]]; rewrite Hu in Hr.
+      + left. exists r. split; [reflexivity|]. split; assumption.
+      + right. exists r, ea. split; [reflexivity|]. split; [exact Hr|].
+        rewrite Hx. rewrite (db_ea_id s Hwf t Hin ea eq_refl). apply incl_refl.
+    - (* left out *)
+      right. left. split; [reflexivity|].
+      destruct hit_top eqn:H1; [rewrite (P_view s Hwf x f' Htop Hnode t Hin), H1 in Ev; discriminate|].
+      destruct hit_flat eqn:H2.
+      + apply andb_true_iff in H2. destruct H2 as [E1 E2]. apply addr_eqb_eq in E1. destruct (link_hits_true _ _ E2) as [a0 Ex].
+        rewrite Ex in E1 |- *. cbn [item_addr] in E1. subst a0. rewrite (db_flat s Hwf t Hin). apply incl_refl.
+      + destruct (ent_ok_parts s Hwf t Hin) as [_ [_ [Hd _]]].
+        destruct k eqn:Ek.
+        * exfalso. revert Ev. rewrite <- Ek. apply container_not_none; [rewrite Ek; discriminate | exact H1 | exact H2].
+        * exfalso. revert Ev. rewrite <- Ek. apply container_not_none; [rewrite Ek; discriminate | exact H1 | exact H2].
+        * destruct (Hd eq_refl) as [Hk _]. rewrite uids_unfold, Hk. simpl. intros v [E|[]]. subst. exact HinA.
+    - left. exists e. split; [reflexivity|]. eapply load_entity_err. exact Ev.
+  Qed.
+End DelLocal2.
